@@ -100,19 +100,20 @@ MapVal(name) ==
    string whose line break is a blank in the twin (TB1 / TB2), a comment ended
    by \n whose twin has a blank there and so comments out the closing brace
    (TC1 valid / TC2 does not parse), a comment ended by \n / by \r whose twin
-   comments out the next field (TD1 / TD3 select two fields, TD2 one), a comma
+   comments out the next field (TD1 / TD3 select two fields, TD2 one; TD4 has
+   a blank where TD3 has \r and comments out the closing brace too), a comma
    inside a string (TF1 "a,b", twin of TA1) - and, as a control, texts that
    really are equivalent (TG1 blanks / TG2 commas and line breaks).  Family(t)
    is what a lossy key function (folding white space and commas) maps t to. *)
-TwinTexts == {"TA1", "TA2", "TB1", "TB2", "TC1", "TC2", "TD1", "TD2", "TD3", "TF1", "TG1", "TG2"}
+TwinTexts == {"TA1", "TA2", "TB1", "TB2", "TC1", "TC2", "TD1", "TD2", "TD3", "TD4", "TF1", "TG1", "TG2"}
 Family(t) == CASE t \in {"TA1", "TA2", "TF1"} -> "FA"
                [] t \in {"TB1", "TB2"} -> "FB"
                [] t \in {"TC1", "TC2"} -> "FC"
-               [] t \in {"TD1", "TD2", "TD3"} -> "FD"
+               [] t \in {"TD1", "TD2", "TD3", "TD4"} -> "FD"
                [] t \in {"TG1", "TG2"} -> "FG"
                [] OTHER -> t
 
-Valid(q) == q \in {"Q1", "Q2"} \cup (TwinTexts \ {"TC2"})   \* "QX" fails validation, "TC2" does not parse: never cached
+Valid(q) == q \in {"Q1", "Q2"} \cup (TwinTexts \ {"TC2", "TD4"})   \* "QX" fails validation, "TC2" / "TD4" do not parse: never cached
 Key(q) == CASE CacheKey = "full" -> q
             [] CacheKey = "fold" -> Family(q)
             [] OTHER -> "Q"                      \* "prefix": all texts share their first byte
@@ -233,6 +234,12 @@ SharedNext == [pool |-> pool', qc |-> qcache', apq |-> apq', cfg |-> cfg0', neg 
 
 Idle == [pc |-> "idle"]
 NoNeg == [tr |-> "", ct |-> ""]
+
+(* the websocket part (actions below) *)
+WsIds == DOMAIN WsScript
+NoFrame == [id |-> "", of |-> "", k |-> 0, t |-> "none"]
+WsIdle == [st |-> "idle", n |-> 0]
+WsInit == [last |-> "", pings |-> 0, op |-> [id \in WsIds |-> WsIdle], frame |-> NoFrame]
 
 Init ==
   /\ pool = <<>>
@@ -378,35 +385,32 @@ Finish(i) ==
 (* subscribe starts a goroutine per operation that writes its frames).       *)
 (*   ws.last   id of the latest client message ("" = none yet / a ping): the  *)
 (*             run loop's message variable                                    *)
-(*   ws.op[id] "idle" / number of data frames produced so far / "done"        *)
+(*   ws.op[id] idle / running with n data frames produced so far / done       *)
 (*   ws.frame  the frame written last: the id it carries, the operation that  *)
 (*             produced it, its number                                        *)
 (* The harness' subscriptions produce their events, and close, when the test  *)
 (* releases them, so every step below is a step of the replay.                *)
 
-WsIds == DOMAIN WsScript
-NoFrame == [id |-> "", of |-> "", k |-> 0, t |-> "none"]
-WsInit == [last |-> "", pings |-> 0, op |-> [id \in WsIds |-> "idle"], frame |-> NoFrame]
 
 (* the id a frame of operation id carries: its own - the start message was
    this operation's - or (deviation) whatever the run loop's variable holds *)
 WsLabel(id) == IF WsSharedMsg THEN ws.last ELSE id
 
 WsSubscribe(id) ==
-  /\ ws.op[id] = "idle"
-  /\ ws' = [ws EXCEPT !.last = id, !.op[id] = 0, !.frame = NoFrame]
+  /\ ws.op[id].st = "idle"
+  /\ ws' = [ws EXCEPT !.last = id, !.op[id].st = "run", !.frame = NoFrame]
   /\ act' = [n |-> "WsSubscribe", id |-> id]
 WsPing ==
   /\ ws.pings < WsPings
   /\ ws' = [ws EXCEPT !.last = "", !.pings = @ + 1, !.frame = NoFrame]
   /\ act' = [n |-> "WsPing", id |-> ""]
 WsEmit(id) ==
-  /\ ws.op[id] \in 0..(WsScript[id] - 1)
-  /\ ws' = [ws EXCEPT !.op[id] = @ + 1, !.frame = [id |-> WsLabel(id), of |-> id, k |-> ws.op[id] + 1, t |-> "next"]]
+  /\ ws.op[id].st = "run" /\ ws.op[id].n < WsScript[id]
+  /\ ws' = [ws EXCEPT !.op[id].n = @ + 1, !.frame = [id |-> WsLabel(id), of |-> id, k |-> ws.op[id].n + 1, t |-> "next"]]
   /\ act' = [n |-> "WsEmit", id |-> id]
 WsComplete(id) ==
-  /\ ws.op[id] = WsScript[id]
-  /\ ws' = [ws EXCEPT !.op[id] = "done", !.frame = [id |-> WsLabel(id), of |-> id, k |-> 0, t |-> "complete"]]
+  /\ ws.op[id].st = "run" /\ ws.op[id].n = WsScript[id]
+  /\ ws' = [ws EXCEPT !.op[id].st = "done", !.frame = [id |-> WsLabel(id), of |-> id, k |-> 0, t |-> "complete"]]
   /\ act' = [n |-> "WsComplete", id |-> id]
 
 WsNext == /\ (WsPing \/ \E id \in WsIds : WsSubscribe(id) \/ WsEmit(id) \/ WsComplete(id))
@@ -494,7 +498,6 @@ EmitSched ==
                    t |-> [i \in 1..Slots |-> PhaseOf(fl'[i])]]))
 (* Schedule graph of the websocket part: state = (operation phases, pings     *)
 (* sent), one edge per client message / released frame.                       *)
-WsPhase == [op |-> ws.op, pings |-> ws.pings]
 EmitWs ==
   act'.n \in {"WsSubscribe", "WsPing", "WsEmit", "WsComplete"} =>
     PrintT(ToJson([s |-> [op |-> ws.op, pings |-> ws.pings],
